@@ -24,6 +24,7 @@ RULE = (
     "(row kind, col kind, value kind) triples x overlap flag x conversion formats x ended-with-bad-write; "
     "non-trivial = at least one non-None write and one conversion"
 )
+RULE += " Dense blocks are handed over in element types float64 / int64 / int32 / float32 / bool / nested Python lists and in C, Fortran, strided and transposed memory layouts; sparse blocks in float64 / int64 / float32."
 COMPONENTS = {
     "real": ["cardillo.utility.coo_matrix.CooMatrix", "scipy.sparse"],
     "stub": [],
